@@ -1,9 +1,11 @@
 //! vp: property-based testing / fuzzing engine for the gitoxide properties (see /verif/DESIGN.md).
 pub mod gen;
 pub mod git;
+pub mod parsers;
 pub mod runner;
 pub mod tape;
 
 pub use git::{object_sha1, sha1_hex, CatFile, Git, Scratch, World};
 pub use runner::{Case, Check, EnumRecorder, SubCfg, Verdict};
 pub use tape::{hex, show, unhex, Tape};
+pub use runner::fuzz;
